@@ -117,7 +117,11 @@ def main_check(prop: str, tier: str, argv=None):
             harness_errors.append(f"{q.name}: {r.error[:400]}")
         for v in r.violations:
             region = (v.info or {}).get("region") if isinstance(v.info, dict) else None
-            groups[(q.group or q.name, v.label, region)].append((q, v))
+            inf = (v.info or {}).get("info") if isinstance(v.info, dict) else v.info
+            # distinct diagnostic texts (e.g. the assertion site of a loop exception) are replayed separately, so
+            # that a recorded finding cannot hide a different failure of the same obligation by sampling
+            detail = inf[:160] if isinstance(inf, str) and len(groups) < 400 else None
+            groups[(q.group or q.name, v.label, region, detail)].append((q, v))
     per_group = int(os.environ.get("SYMX_REPLAYS_PER_GROUP", "3"))
     items, item_keys = [], []
     for key, vs in groups.items():
